@@ -8,7 +8,7 @@
 // @config name=default rustflags="--cap-lints warn"
 // @config name=zeroize features=zeroize rustflags="--cap-lints warn"
 use super::*;
-use crate::__vp_lib::{eq4, eq8, eq_bytes, spec_block_raw, spec_g13, spec_g21, spec_g5, tr, ufb};
+use crate::__vp_lib::{eq4, eq8, eq_bytes, spec_block_raw, spec_g13, spec_g21, spec_g5, tr, trb, ufb};
 use bcref::belt as spec;
 use cipher::Array;
 include!("@VERIF@/contracts/_common/common.rs");
@@ -137,13 +137,14 @@ fn l_roundtrip_enc_dec() {
 }
 
 // ------------------------------------------------------------------------------------------------ C04 / C15 multi-block
-// Plumbing only: the block function is the uninterpreted `ufb` (encryption: belt_block_raw replaced; licensed by
-// c_belt_block_raw).  Each block goes through exactly once and in order, b2b inputs untouched, guard blocks
-// around the output untouched, state unchanged.
+// Plumbing only: belt_block_raw is the transcript oracle `trb` of lib.rs (licensed by c_belt_block_raw): the
+// per-block calls are recorded, the multi-block calls must ask the same questions block after block, in order.
+// Each block goes through exactly once and in order, b2b inputs untouched, guard blocks around the output
+// untouched, state unchanged.
 macro_rules! multi_block_enc {
     ($name:ident, $n:expr) => {
         #[kani::proof]
-        #[kani::stub(belt_block_raw, ufb::block)]
+        #[kani::stub(belt_block_raw, trb::block)]
         #[kani::unwind(34)]
         fn $name() {
             let c = any_belt();
@@ -160,7 +161,10 @@ macro_rules! multi_block_enc {
             let mut blocks = [Array([0u8; 16]); $n];
             let mut i = 0;
             while i < $n { blocks[i] = Array(inp[i]); i += 1; }
+            assert!(trb::recorded() == $n);
+            trb::replay(tr::FORWARD);
             cipher::BlockCipherEncrypt::encrypt_blocks(&c, &mut blocks);
+            assert!(trb::exhausted());
             let mut i = 0;
             while i < $n { assert!(eq_bytes(&blocks[i].0, &single[i])); i += 1; }
             let mut src = [Array([0u8; 16]); $n];
@@ -168,7 +172,9 @@ macro_rules! multi_block_enc {
             while i < $n { src[i] = Array(inp[i]); i += 1; }
             let g: [u8; 16] = kani::any();
             let mut dst = [Array(g); $n + 2];
+            trb::replay(tr::FORWARD);
             cipher::BlockCipherEncrypt::encrypt_blocks_b2b(&c, &src, &mut dst[1..$n + 1]).unwrap();
+            assert!(trb::exhausted());
             assert!(eq_bytes(&dst[0].0, &g) && eq_bytes(&dst[$n + 1].0, &g));
             let mut i = 0;
             while i < $n { assert!(eq_bytes(&dst[i + 1].0, &single[i]) && eq_bytes(&src[i].0, &inp[i])); i += 1; }
@@ -232,7 +238,7 @@ macro_rules! multi_block_dec {
 multi_block_dec!(m_dec_blocks_0, 0);
 // @ob name=m_dec_blocks_1 props=C04,C15 kind=bounded bound="n = 1 block" fn=belt_block::BeltBlock::decrypt_with_backend,belt_block::BeltBlock::decrypt_block uses=c_g5,c_g13,c_g21 timeout=600
 multi_block_dec!(m_dec_blocks_1, 1);
-// @ob name=m_dec_blocks_3 props=C04,C15 kind=bounded bound="n = 3 blocks" fn=belt_block::BeltBlock::decrypt_with_backend,belt_block::BeltBlock::decrypt_block uses=c_g5,c_g13,c_g21 timeout=900
+// @ob name=m_dec_blocks_3 props=C04,C15 tier=thorough kind=bounded bound="n = 3 blocks" fn=belt_block::BeltBlock::decrypt_with_backend,belt_block::BeltBlock::decrypt_block uses=c_g5,c_g13,c_g21 timeout=3000
 multi_block_dec!(m_dec_blocks_3, 3);
 
 // ------------------------------------------------------------------------------------------------ C11 key lengths, C12 clone
